@@ -300,7 +300,8 @@ def terminal_density(ctx):
     want_b = {f"T.contains_points((self.layer.coherence_length*self.mesh.edge_mesh.centers)[{be}],index=True)",
               f"T.contains_points(self.layer.coherence_length*self.mesh.edge_mesh.centers[{be}],index=True)"}
     want_l = {f"self.edge_lengths[{be}][{b}].sum()" for b in want_b}
-    ok = bt in want_b and lt in want_l
+    from ..dataflow import canon_text
+    ok = canon_text(bt) in {canon_text(w) for w in want_b} and canon_text(lt) in {canon_text(w) for w in want_l}
     ctx.ob("R01.4", "terminal.length == sum of (dimensionful) edge lengths over exactly terminal.boundary_edge_indices",
            ok, detail={"boundary_edge_indices": bt, "length": lt}, where=ft.fq, construct="TerminalInfo length / boundary edges",
            loc=loc(ft, tcalls[0]), message=f"length = {lt}; boundary_edge_indices = {bt}",
